@@ -180,6 +180,28 @@ def build_harness(name: str, main: str, repo_sources: Iterable[str] = (), *, inc
     return exe
 
 
+def build_harness_with_fallback(build: Callable[[list[str]], Path], notes: Optional[list[str]] = None) -> tuple[Path, bool]:
+    """Harnesses that reach anonymous-namespace functions by name (`#include` of a repo .cpp) stop
+    compiling when such a helper is renamed or inlined -- a harmless change. `build(defines)` is
+    tried with -DVERIF_INTERNALS=1 first; if that fails ONLY because a name is no longer declared
+    (or a signature no longer matches), it is retried with -DVERIF_INTERNALS=0, in which the harness
+    compiles its public-API operations only. Returns (binary, internals_available); the plugin drops
+    the internal-only ops from its generator and reports the gap in the evidence notes."""
+    try:
+        return build(["-DVERIF_INTERNALS=1"]), True
+    except BuildError as ex:
+        txt = ex.output
+        harmless = ("was not declared in this scope" in txt or "has not been declared" in txt or "no matching function for call" in txt
+                    or "has no member named" in txt or "is not a member of" in txt)
+        if not harmless:
+            raise
+        exe = build(["-DVERIF_INTERNALS=0"])
+        if notes is not None:
+            notes.append("harness internals unavailable (a private helper the harness calls by name is gone): "
+                         "public-API operations only; " + txt.strip().splitlines()[0][:200])
+        return exe, False
+
+
 # --------------------------------------------------------------------------------------
 # (T) extraction
 # --------------------------------------------------------------------------------------
